@@ -43,7 +43,7 @@ WEIGHTS = {
 
 
 def n_cases(tier):
-    return 1500 if tier == 'quick' else 1600
+    return 1500 if tier == 'quick' else 4000
 
 
 def make_case(seed, index, tier):
